@@ -1,6 +1,14 @@
 import PraatModel.Klatt
 import PraatModel.Lemmas.Strip
 import PraatModel.Lemmas.KlattStr
+import PraatModel.Props.C19PointShort
+
+/-! # C19 — Praat's long ("normal") point-object layout opens to the same object
+
+The hypotheses of the registered theorems are `PO.Ok1` / `PO.Ok2` (`Props/C19PointShort.lean`): the class name
+and numerals that are any strings `float()` accepts and `strip()` leaves alone (`Lit`).  That a numeral
+contains neither a newline nor `=` — what the proofs below use (`LNumeral`) — is a consequence. -/
+
 namespace C19
 open Klatt
 
@@ -8,11 +16,21 @@ namespace Long
 
 /-- numeral for the long readers: float() literal, strip-invariant, one line, no '=' -/
 def LNumeral (n : Txt) : Prop := stripList n = n ∧ (fclass n).isSome ∧ '\n' ∉ n ∧ '=' ∉ n
+theorem LNumeral.of_lit {n : Txt} (h : Lit n) : LNumeral n :=
+  ⟨h.1, h.2, h.not_mem '\n' (by decide), h.not_mem '=' (by decide)⟩
+theorem lnumeral_iff (n : Txt) : LNumeral n ↔ Lit n := ⟨fun h => ⟨h.1, h.2.1⟩, LNumeral.of_lit⟩
+
+/-- `PO.Ok1` / `PO.Ok2` with the character conditions spelled out (what the proofs use) -/
 def Ok1 (p : PO) : Prop :=
   p.cls = t "PointProcess" ∧ LNumeral p.xmin ∧ LNumeral p.xmax ∧ ∀ r ∈ p.rows, ∃ v, r = [v] ∧ LNumeral v
 def Ok2 (p : PO) : Prop :=
   (p.cls = t "PitchTier" ∨ p.cls = t "DurationTier") ∧ LNumeral p.xmin ∧ LNumeral p.xmax ∧
   ∀ r ∈ p.rows, ∃ a b, r = [a, b] ∧ LNumeral a ∧ LNumeral b
+
+theorem ok1_of {p : PO} (h : PO.Ok1 p) : Ok1 p :=
+  ⟨h.1, .of_lit h.2.1, .of_lit h.2.2.1, fun r hr => let ⟨v, e, hv⟩ := h.2.2.2 r hr; ⟨v, e, .of_lit hv⟩⟩
+theorem ok2_of {p : PO} (h : PO.Ok2 p) : Ok2 p :=
+  ⟨h.1, .of_lit h.2.1, .of_lit h.2.2.1, fun r hr => let ⟨a, b, e, ha, hb⟩ := h.2.2.2 r hr; ⟨a, b, e, .of_lit ha, .of_lit hb⟩⟩
 
 theorem floatTok_ok (n : Txt) (h : (fclass n).isSome) : floatTok n = .ok n := by
   unfold floatTok
@@ -443,7 +461,8 @@ theorem isErr_eq (e : PyErr) (r : R PO) (h : isErr e r = true) : r = .error e :=
 end Long
 
 /-- the long text layout of a PointProcess opens to the same numeral-level object (any number of rows) -/
-theorem pointobj_long_1d (p : PO) (h : Long.Ok1 p) : open1D (p.longText false) = .ok p := by
+theorem pointobj_long_1d (p : PO) (h : PO.Ok1 p) : open1D (p.longText false) = .ok p := by
+  have h := Long.ok1_of h
   obtain ⟨cls, xmin, xmax, rows⟩ := p
   obtain ⟨hc, hmin, hmax, hrows⟩ := h
   simp only at hc hmin hmax hrows
@@ -469,7 +488,8 @@ theorem pointobj_long_1d (p : PO) (h : Long.Ok1 p) : open1D (p.longText false) =
   rfl
 
 /-- the long text layout of a PitchTier / DurationTier with at least one point opens to the same object -/
-theorem pointobj_long_2d (p : PO) (h : Long.Ok2 p) (hne : p.rows ≠ []) : open2D (p.longText true) = .ok p := by
+theorem pointobj_long_2d (p : PO) (h : PO.Ok2 p) (hne : p.rows ≠ []) : open2D (p.longText true) = .ok p := by
+  have h := Long.ok2_of h
   obtain ⟨cls, xmin, xmax, rows⟩ := p
   obtain ⟨hc, hmin, hmax, hrows⟩ := h
   simp only at hc hmin hmax hrows hne
@@ -515,8 +535,9 @@ theorem pointobj_long_2d (p : PO) (h : Long.Ok2 p) (hne : p.rows ≠ []) : open2
 /-- **the empty 2-D object in the long layout** (`points: size = 0` and nothing after it) opens to the empty
 object.  Before /repo commit 3bc936d the header rows were counted from the end of `split("\n", 7)`, which
 has one element fewer here, and `float("")` raised ValueError (former known finding C19-empty2d-long). -/
-theorem pointobj_long_2d_empty (p : PO) (h : Long.Ok2 p) (he : p.rows = []) :
+theorem pointobj_long_2d_empty (p : PO) (h : PO.Ok2 p) (he : p.rows = []) :
     open2D (p.longText true) = .ok p := by
+  have h := Long.ok2_of h
   obtain ⟨cls, xmin, xmax, rows⟩ := p
   obtain ⟨hc, hmin, hmax, -⟩ := h
   simp only at hc hmin hmax he
@@ -552,7 +573,7 @@ theorem pointobj_long_2d_empty (p : PO) (h : Long.Ok2 p) (he : p.rows = []) :
   rcases hc with rfl | rfl <;> rfl
 
 /-- the long layout of a 2-D object opens to the same object, **for every number of points** -/
-theorem pointobj_long_2d_all (p : PO) (h : Long.Ok2 p) : open2D (p.longText true) = .ok p := by
+theorem pointobj_long_2d_all (p : PO) (h : PO.Ok2 p) : open2D (p.longText true) = .ok p := by
   by_cases he : p.rows = []
   · exact pointobj_long_2d_empty p h he
   · exact pointobj_long_2d p h he
@@ -576,5 +597,12 @@ theorem pointobj_long_2d_all (p : PO) (h : Long.Ok2 p) : open2D (p.longText true
 #guard match open2D (PO.longText ⟨t "DurationTier", t "0", t "1.5", [[t "0.25", t "1.0"]]⟩ true) with
   | .ok q => decide (q = ⟨t "DurationTier", t "0", t "1.5", [[t "0.25", t "1.0"]]⟩)
   | _ => false
+
+/-- the class hypothesis of `PO.Ok1` / `PO.Ok2` is enforced by the code: the 1-D reader refuses a PitchTier text,
+the 2-D reader a PointProcess text (praatio's WrongOption, raised by the constructors; replayed on /repo) -/
+theorem pointobj_wrong_class_rejected :
+    open1D (PO.text ⟨t "PitchTier", t "0", t "1", []⟩) = .error .wrongOption ∧
+    open2D (PO.text ⟨t "PointProcess", t "0", t "1", []⟩) = .error .wrongOption :=
+  ⟨Long.isErr_eq _ _ (by decide), Long.isErr_eq _ _ (by decide)⟩
 
 end C19
